@@ -1,4 +1,5 @@
 import ClusterVerif.Lemmas.C11
+import ClusterVerif.Gen.C11Send
 /-!
 C11 — property theorems.
 
@@ -574,5 +575,89 @@ example : (handle (Gen.chain false) Gen.routes { rPin with auth := .wrong }).ops
     (handle (Gen.chain false) Gen.routes { rPin with auth := .wrong }).status = 401 := by decide
 example : handle (Gen.chain false) Gen.routes { rPin with query := rPin.query ++ [("shard-size", .invalid)] } = refuse 400 := by
   decide
+
+/-! ### round 8b: `sendResponse` interpreted over its extracted body (`Gen.sendLogic`), for every status value -/
+
+/-- an error is answered with exactly one `WriteHeader`, of a status ≥ 400 (the given one if it is ≥ 400, else 500 — in
+    particular for `autoStatus`), and exactly one JSON document, whatever `resp` is -/
+theorem send_error (st : Int) (resp : Bool) :
+    ∃ s, sendResponse Gen.sendLogic Gen.autoStatus st true resp = ⟨[s], 1⟩ ∧ 400 ≤ s ∧
+      (400 ≤ st → s = st) ∧ (st < 400 → s = 500) := by
+  by_cases h : st < 400
+  · refine ⟨500, ?_, by omega, by omega, fun _ => rfl⟩
+    simp [sendResponse, runArms, runStmts, SCond.eval, Gen.sendLogic, Gen.autoStatus, h]
+  · refine ⟨st, ?_, by omega, fun _ => rfl, by omega⟩
+    have h1 : ¬ st = -1 := by omega
+    simp [sendResponse, runArms, runStmts, SCond.eval, Gen.sendLogic, Gen.autoStatus, h, h1]
+
+/-- a value without error: one header (200 for `autoStatus`, else the given status), one document -/
+theorem send_value (st : Int) :
+    sendResponse Gen.sendLogic Gen.autoStatus st false true = ⟨[if st = Gen.autoStatus then 200 else st], 1⟩ := by
+  by_cases h : st = -1 <;>
+    simp [sendResponse, runArms, runStmts, SCond.eval, Gen.sendLogic, Gen.autoStatus, h]
+
+/-- neither error nor value: one header (204 for `autoStatus`), no body -/
+theorem send_empty (st : Int) :
+    sendResponse Gen.sendLogic Gen.autoStatus st false false = ⟨[if st = Gen.autoStatus then 204 else st], 0⟩ := by
+  by_cases h : st = -1 <;>
+    simp [sendResponse, runArms, runStmts, SCond.eval, Gen.sendLogic, Gen.autoStatus, h]
+
+/-- `single_document` at the level of `sendResponse`: for every status, error and value exactly one `WriteHeader`, never
+    more than one document, and one document exactly when there is an error or a value -/
+theorem send_single_document (st : Int) (err resp : Bool) :
+    (sendResponse Gen.sendLogic Gen.autoStatus st err resp).written.length = 1 ∧
+    (sendResponse Gen.sendLogic Gen.autoStatus st err resp).docs ≤ 1 ∧
+    ((sendResponse Gen.sendLogic Gen.autoStatus st err resp).docs = 1 ↔ (err || resp) = true) := by
+  cases err
+  · cases resp
+    · rw [send_empty]; simp
+    · rw [send_value]; simp
+  · obtain ⟨s, hs, _⟩ := send_error st resp
+    rw [hs]; simp
+
+/-- `fail_closed` at the level of `sendResponse`: whatever status a handler passes along with an error, the status
+    written is ≥ 400 -/
+theorem send_fail_closed (st : Int) (resp : Bool) :
+    ∀ s ∈ (sendResponse Gen.sendLogic Gen.autoStatus st true resp).written, 400 ≤ s := by
+  obtain ⟨s, hs, h400, _⟩ := send_error st resp
+  rw [hs]; simp; exact h400
+
+/-- the alternative a tidy-up would write (`if status == autoStatus { status = 500 }`, without the `status < 400` floor) -/
+def sendLogicNoFloor : List SArm :=
+  [ { guard := some .errNonNil, body := [.ifSet .statusAuto 500, .writeHeader, .encode, .ret] },
+    { guard := some .respNonNil, body := [.ifSet .statusAuto 200, .writeHeader, .encode, .ret] },
+    { guard := none, body := [.ifSet .statusAuto 204, .writeHeader] } ]
+
+/-- … is not fail-closed: an error passed with status 200 is answered 200 -/
+theorem send_no_floor_refuted :
+    ¬ ∀ (st : Int) (resp : Bool), ∀ s ∈ (sendResponse sendLogicNoFloor Gen.autoStatus st true resp).written, 400 ≤ s := by
+  intro h
+  have := h 200 false 200 (by decide)
+  omega
+
+/-- every route's handler: for the local and the global form and each cluster answer, the extracted call sites, run
+    through the extracted `sendResponse`, give exactly the status and document count of the model's arm -/
+theorem handlers_answer_through_sendResponse :
+    Gen.routes.all (fun rt => [false, true].all (fun loc => [RpcMode.ok, .err, .notFound].all (fun m =>
+      sendsAgree Gen.sendLogic Gen.autoStatus Gen.handlerSends rt loc m))) = true := by decide
+
+/-- every call made before an RPC — in a handler, a parse helper, the 404 and the 405 handler — is a refusal: a 4xx
+    status by name with a non-nil error and no value, answered as the model's `refuse` -/
+theorem refusals_through_sendResponse :
+    Gen.handlerSends.all (fun h => refusalsAgree Gen.sendLogic Gen.autoStatus h.2) = true := by decide
+
+/-- the functions that call `sendResponse` are the route handlers, the three parse helpers and the 404 / 405 handlers -/
+theorem senders_known :
+    Gen.handlerSends.all (fun h => Gen.routes.any (fun rt => rt.handler == h.1) ||
+      ["parseCidOrError", "parsePinPathOrError", "parsePidOrError", Gen.notFoundHandler,
+       Gen.methodNotAllowedHandler.getD ""].contains h.1) = true := by decide
+
+example : sendResponse Gen.sendLogic Gen.autoStatus 200 true true = ⟨[500], 1⟩ := by decide
+example : sendResponse Gen.sendLogic Gen.autoStatus 404 true false = ⟨[404], 1⟩ := by decide
+example : sendResponse Gen.sendLogic Gen.autoStatus Gen.autoStatus false false = ⟨[204], 0⟩ := by decide
+example : groupAnswer Gen.sendLogic Gen.autoStatus ((Gen.handlerSends.lookup "unpinHandler").getD []) "Cluster.Unpin" .notFound
+    = some ⟨[404], 1⟩ := by decide
+example : groupAnswer Gen.sendLogic Gen.autoStatus ((Gen.handlerSends.lookup "statusAllHandler").getD []) "Cluster.StatusAllLocal" .ok
+    = some ⟨[200], 1⟩ := by decide
 
 end CV.C11
